@@ -200,6 +200,16 @@ func verifDir() string {
 	return "/verif"
 }
 
+// outDir is where replay files and evidence go: /verif, unless the check runs
+// against another tree than /repo (evaluation of a seeded change), which must
+// not overwrite the evidence of the real tree.
+func outDir() string {
+	if d := os.Getenv("VERIF_OUT"); d != "" {
+		return d
+	}
+	return verifDir()
+}
+
 func loadFindings() []finding {
 	var ff findingsFile
 	b, err := os.ReadFile(filepath.Join(verifDir(), "known_findings.json"))
@@ -816,7 +826,7 @@ func shrinkAndSave(prop *Prop, tier string, base uint64, r *Result) (string, boo
 	rf.Digest = final.Digest
 	rf.Trace = final.Trace
 	rf.Sample = final.Sample
-	dir := filepath.Join(verifDir(), "replays")
+	dir := filepath.Join(outDir(), "replays")
 	_ = os.MkdirAll(dir, 0o755)
 	name := fmt.Sprintf("%s-%d-%016x.json", prop.ID, base, choice.HashString(r.Clause+"|"+r.Key))
 	path := filepath.Join(dir, name)
@@ -939,7 +949,7 @@ func writeEvidence(prop *Prop, tier string, base uint64, a *agg, wall float64, v
 		"wall_s":      wall,
 		"violations":  viol,
 	}
-	dir := filepath.Join(verifDir(), "evidence")
+	dir := filepath.Join(outDir(), "evidence")
 	_ = os.MkdirAll(dir, 0o755)
 	b, _ := json.MarshalIndent(ev, "", " ")
 	_ = os.WriteFile(filepath.Join(dir, prop.ID+".json"), b, 0o644)
